@@ -17,7 +17,7 @@ BLK = 4096
 
 TIERS = {
     # cases, errnos per site, fsize sample, double-fault sample per case, determinism re-runs
-    "quick": {"cases": 96, "all_errnos": False, "fsize_samples": 6, "fsize_all_below": 2048, "doubles": 3, "redo": 6, "budget_s": 240},
+    "quick": {"cases": 160, "all_errnos": False, "fsize_samples": 6, "fsize_all_below": 2048, "doubles": 3, "redo": 6, "budget_s": 240},
     "thorough": {"cases": 640, "all_errnos": True, "fsize_samples": 48, "fsize_all_below": 16384, "doubles": 10**9, "redo": 40, "budget_s": 3000},
 }
 
@@ -74,7 +74,7 @@ def single_faults(events: list[dict], rng: Rng, all_errnos: bool) -> list[dict]:
 
 def fsize_limits(ref: dict, layout: list[tuple[int, int]], rng: Rng, tier: dict) -> list[int]:
     """Disk-capacity values to try: tensor boundaries +-1, 4 KiB boundaries +-1, file ends, seeded sample."""
-    sizes = [s for n, s in ref.get("sizes", {}).items() if not n.startswith(("src", "sub/"))]
+    sizes = [s for n, s in ref.get("sizes", {}).items() if not n.startswith(("src", "sub/", "second/"))]
     if not sizes:
         return []
     top = max(sizes)
@@ -188,7 +188,7 @@ def explore(recipe: dict, frng: Rng, tier: dict, root: str, idx: int, only_kinds
            "digests": [], "harness": []}
 
     def record(plan, rec):
-        out["saves"] += 1 + (1 if "retry" in rec else 0)
+        out["saves"] += 1 + (1 if "retry" in rec else 0) + (1 if "second_save" in rec else 0)
         out["digests"].append(engine.digest(rec))
         out["outcomes"][rec["outcome"] if not recipe.get("uninit") else "refused" if rec["outcome"] == "raised" else "returned"] += 1
         for v in rec["violations"]:
